@@ -34,11 +34,50 @@ structure ClassKeys where
   delegateVia : List String := []
 deriving Repr
 
+/-- a top-level statement of a run-loop body -/
+inductive LoopEvent
+  | step        -- optimiser / operator / integrator step
+  | decide      -- accept / reject (parameters possibly put back)
+  | logger
+  | tune        -- operator.tune (operators and adaptors learn)
+  | scheduler
+  | convergence
+  | adapt       -- warm-up adaptor of HMC.run
+  | snapshot    -- `completed = self._epoch`
+  | increment   -- `self._epoch += 1` (or the header of a `for … in range` loop)
+  | save        -- `if … % checkpoint_frequency == 0: save…`
+  | other
+deriving DecidableEq, Repr
+
+/-- one checkpointing loop as read from the AST -/
 structure LoopSpec where
   name : String
-  /-- `self._epoch += 1` stands before the statement that writes the checkpoint -/
-  incBeforeSave : Bool
+  /-- top-level statements of the loop body in source order -/
+  events : List LoopEvent
+  /-- the counter is an attribute of the object (`self._epoch`), not a local of the method -/
+  counterIsAttr : Bool
+  /-- the class's `state_dict` writes that attribute and `load_state_dict` reads it back -/
+  counterSaved : Bool
+  /-- the checkpoint statement writes the algorithm state (`state_dict()`), not only the parameters -/
+  savesState : Bool
 deriving Repr
+
+/-- `self._epoch += 1` stands before the statement that writes the checkpoint -/
+def LoopSpec.incBeforeSave (l : LoopSpec) : Bool :=
+  l.events.contains .increment && l.events.contains .save &&
+    decide (l.events.idxOf .increment < l.events.idxOf .save)
+
+/-- everything that changes the run state during an iteration happens before the checkpoint is written -/
+def LoopSpec.mutationsBeforeSave (l : LoopSpec) : Bool :=
+  [LoopEvent.step, .decide, .tune, .scheduler, .adapt].all fun e =>
+    !l.events.contains e || decide (l.events.idxOf e < l.events.idxOf .save)
+
+/-- the counter reaches the file and comes back from it -/
+def LoopSpec.counterRoundTrips (l : LoopSpec) : Bool := l.counterIsAttr && l.counterSaved && l.savesState
+
+/-- the checkpoint written during an iteration lets a restart continue with the next one -/
+def LoopSpec.storesNext (l : LoopSpec) : Bool :=
+  l.counterRoundTrips && l.incBeforeSave && l.mutationsBeforeSave
 
 /-- keys that identify an object (children are matched on them) rather than carry run state -/
 def identityKeys : List String := ["id"]
@@ -107,9 +146,11 @@ def attached (state : KVs) (i : Int) : Option Val := state.lookupKey (.int i)
 
 /-! ## the iteration counter -/
 
-/-- the value of `self._epoch` that `state_dict()` sees when the checkpoint of iteration `e` is
-written -/
-def savedCounter (l : LoopSpec) (e : Nat) : Nat := if l.incBeforeSave then e + 1 else e
+/-- the iteration label a run restarted from the checkpoint of iteration `e` begins with: the value of
+`self._epoch` that `state_dict()` saw when the file was written, if the counter round-trips -/
+def savedCounter (l : LoopSpec) (e : Nat) : Nat :=
+  if l.counterRoundTrips then (if l.incBeforeSave then e + 1 else e)
+  else 1  -- nothing comes back: the restarted loop begins with its initial value
 
 /-- `n` passes through the loop body starting with `self._epoch = e`: the visited
 (iteration label, state after the step) pairs.  `step e s` is one pass (deterministic). -/
